@@ -385,13 +385,13 @@ example : ∀ x : Fin 2 → ℝ, 0 ≤ quadForm (fun i j => if i = j then (1:ℝ
 2×2 matrix with stored entries (0,0)=3, (1,1)=0 is all-zero (one explicit zero), and so is
 its column 1 -/
 example : RowZero (⟨2, 2, #[0, 1, 2], #[0, 1], #[3, 0]⟩ : Csc ℝ) 1 := by
-  have hE : (⟨2, 2, #[0, 1, 2], #[0, 1], #[3, 0]⟩ : Csc ℝ).entries = [(0, 0, 3), (1, 1, 0)] := by rfl
+  have hE : (⟨2, 2, #[0, 1, 2], #[0, 1], #[3, 0]⟩ : Csc ℝ).storedEntries = [(0, 0, 3), (1, 1, 0)] := by rfl
   intro e he
   rw [hE] at he
   simp only [List.mem_cons, List.not_mem_nil, or_false] at he
   rcases he with rfl | rfl <;> simp
 example : ZeroWhere (⟨2, 2, #[0, 1, 2], #[0, 1], #[3, 0]⟩ : Csc ℝ) (fun _ c => c = 1) := by
-  have hE : (⟨2, 2, #[0, 1, 2], #[0, 1], #[3, 0]⟩ : Csc ℝ).entries = [(0, 0, 3), (1, 1, 0)] := by rfl
+  have hE : (⟨2, 2, #[0, 1, 2], #[0, 1], #[3, 0]⟩ : Csc ℝ).storedEntries = [(0, 0, 3), (1, 1, 0)] := by rfl
   intro e he
   rw [hE] at he
   simp only [List.mem_cons, List.not_mem_nil, or_false] at he
